@@ -20,6 +20,13 @@ where
 }
 
 /// Runs `f`, mapping a panic to None.
+pub fn hash_of<T: std::hash::Hash>(x: &T) -> u64 {
+    use std::hash::Hasher;
+    let mut h = std::collections::hash_map::DefaultHasher::new();
+    x.hash(&mut h);
+    h.finish()
+}
+
 pub fn guarded<T>(f: impl FnOnce() -> T) -> Option<T> {
     catch_unwind(AssertUnwindSafe(f)).ok()
 }
@@ -238,8 +245,13 @@ fn eval_case_inner(line: &str) -> String {
             let r = guarded(|| {
                 let a = f.to_bytes();
                 let b = f.to_bytes_with_newline();
+                // "gives back an EQUAL frame": the derived ==, in both directions, Hash and Clone agree with the fields
                 let one = |enc: &[u8]| match Frame::from_bytes(enc) {
-                    Ok(g) => format!("OK {}", str_frame(&g)),
+                    Ok(g) => {
+                        let same_fields = str_frame(&g) == str_frame(&f);
+                        let equal = g == f && f == g && hash_of(&g) == hash_of(&f) && g.clone() == g;
+                        format!("{} {}", if equal || !same_fields { "OK" } else { "OK-BUT-NOT-EQUAL" }, str_frame(&g))
+                    }
                     Err(e) => str_ferr(&e),
                 };
                 format!("{} {} | {} | {}", hex_of_bytes(&a), hex_of_bytes(&b), one(&a), one(&b))
@@ -285,10 +297,13 @@ fn eval_case_inner(line: &str) -> String {
         "F2M" | "F2MB" => {
             let f = mkframe(num(t[1]), num(t[2]), bytes_of_hex(t[3]), t[0] == "F2MB");
             match guarded(|| {
+                let orig = f.clone();
                 let m = Message::from(f);
                 let s = str_msg(&m);
                 let back = Frame::from(m);
-                format!("{} {}", s, str_frame(&back))
+                let same_fields = str_frame(&back) == str_frame(&orig);
+                let equal = back == orig && orig == back && hash_of(&back) == hash_of(&orig);
+                format!("{} {}{}", s, str_frame(&back), if same_fields && !equal { " NOT-EQUAL" } else { "" })
             }) {
                 None => "PANIC".to_string(),
                 Some(s) => s,
@@ -305,8 +320,14 @@ fn eval_case_inner(line: &str) -> String {
             let m = msg_of_str(t[1]);
             let r = guarded(|| {
                 let f = Frame::from(m);
+                let orig = msg_of_str(t[1]);
                 let one = |enc: Vec<u8>| match Frame::from_bytes(&enc) {
-                    Ok(g) => format!("OK {}", str_msg(&Message::from(g))),
+                    Ok(g) => {
+                        let back = Message::from(g);
+                        let same = str_msg(&back) == str_msg(&orig);
+                        let equal = back == orig && orig == back && hash_of(&back) == hash_of(&orig);
+                        format!("{} {}", if equal || !same { "OK" } else { "OK-BUT-NOT-EQUAL" }, str_msg(&back))
+                    }
                     Err(e) => str_ferr(&e),
                 };
                 format!("{} | {}", one(f.to_bytes()), one(f.to_bytes_with_newline()))
@@ -494,11 +515,20 @@ fn eval_case_inner(line: &str) -> String {
             let script: Vec<Reply> = t[4..].iter().map(|s| reply_of_str(s)).collect();
             let bus = Rc::new(RefCell::new(ScriptBus::new(script)));
             let dynbus: Rc<RefCell<dyn SignBus>> = bus.clone();
-            let sign = Sign::new(dynbus, Address(num::<u16>(t[1])), SIGN_TYPES[num::<usize>(t[2])]);
+            // one Sign object per address used by the operations, all sharing the bus (a1 t1 are the first one's)
+            let mut signs: std::collections::HashMap<u16, Sign> = std::collections::HashMap::new();
+            signs.insert(num::<u16>(t[1]), Sign::new(dynbus.clone(), Address(num::<u16>(t[1])), SIGN_TYPES[num::<usize>(t[2])]));
             let mut outs: Vec<String> = vec![];
             let mut seen = 0usize;
             for op in ops {
-                let r = run_cop_on(&sign, op);
+                let p: Vec<&str> = op.splitn(3, '.').collect();
+                let a: u16 = num(p[1]);
+                let ty = match p[0] {
+                    "CFG" | "CIN" => SIGN_TYPES[num::<usize>(p[2])],
+                    _ => SIGN_TYPES[(a % 11) as usize],
+                };
+                let sign = signs.entry(a).or_insert_with(|| Sign::new(dynbus.clone(), Address(a), ty));
+                let r = run_cop_on(sign, op);
                 let b = bus.borrow();
                 let trace: Vec<String> = b.trace[seen..].iter().map(str_msg).collect();
                 seen = b.trace.len();
@@ -637,7 +667,18 @@ fn eval_pg(t: &[&str]) -> String {
                 let (mut h1, mut h2) = (DefaultHasher::new(), DefaultHasher::new());
                 q.hash(&mut h1);
                 page.hash(&mut h2);
-                q == page && page == q && h1.finish() == h2.finish() && page.clone() == page
+                // a clone is an independent page: changing it leaves the original's bytes alone
+                let independent = {
+                    let before = page.as_bytes().to_vec();
+                    let mut c = page.clone();
+                    if c.width() > 0 && c.height() > 0 {
+                        let v = c.get_pixel(0, 0);
+                        c.set_pixel(0, 0, !v);
+                    }
+                    c.set_all_pixels(true);
+                    page.as_bytes() == &before[..]
+                };
+                q == page && page == q && h1.finish() == h2.finish() && page.clone() == page && independent
             }
             Err(_) => false,
         }
